@@ -117,6 +117,14 @@ def main():
                         del nn
                 rec["norm"] = nrec
                 rec["interleaved"] = inter
+                # a window whose bounds are given differently: aware start + naive end, naive start + aware (UTC) end. The zone rule then
+                # takes the zone of whichever bound has one (context zone first)
+                if wall.year < 9999:
+                    later = wall + datetime.timedelta(days=3)
+                    end2 = later if t.tzinfo is not None else later.replace(tzinfo=ZoneInfo("UTC"))
+                    rec["intervals_mixed"] = [[dt_json(a), dt_json(b), str(k), list(c)] for a, b, k, c in o.intervals(t, end2)][:12]
+                else:
+                    rec["intervals_mixed"] = []
                 if wall.year == 9999 and wall.month == 12 and wall.day > 28:
                     rec["intervals_bounded"] = []      # the end of the window cannot be written as a Python datetime
                 else:
